@@ -453,7 +453,7 @@ def c_derivative(chk):
             def fd(it, args, kwargs):
                 # contract of helpers.derivative (C19): exact derivative of the function it is given, here recorded symbolically
                 f, x = args[0], args[1]
-                it.event(kind="fd-call", f=f, x=x, n=kwargs.get("n"))
+                it.event(kind="fd-call", f=f, x=x, n=kwargs.get("n"), bounds=kwargs.get("bounds"))
                 vals = it.call(f, [x], {})
                 return elementwise(lambda v: specfun("D")(sym.to_sym(v)) if not isinstance(v, np.ndarray) else v, vals) if False else as_array(
                     [specfun("Dout")(sym.to_sym(t)) for t in as_array(x).reshape(-1)]) if K == 1 else as_array(
@@ -499,4 +499,12 @@ def c_derivative(chk):
                             from wgvc.interp import BoundMethod
                             good = good and all(isinstance(e["f"], BoundMethod) and e["f"].name == "_evaluateOutOfBounds" and e["f"].obj is p.state["o"]
                                                 for e in fdcalls)
+                            # ... and its stencil stays on the entry's own side of the table (helpers.derivative never evaluates
+                            # outside the bounds it is given, C19): _evaluateOutOfBounds leaves interior entries uninitialised (F8)
+                            for e in fdcalls:
+                                sides = {region_of(p.pc, t) for t in as_array(e["x"]).reshape(-1)}
+                                bnd = e.get("bounds")
+                                one_sided = len(sides) == 1 and isinstance(bnd, (tuple, list)) and len(bnd) == 2 and \
+                                    ((sides == {"below"} and bnd[1] == lo) or (sides == {"above"} and bnd[0] == hi))
+                                good = good and bool(one_sided)
                 chk.vc(f"derivative.{tag}.elementwise-rule.{i}", p.pc, sym.to_sym(bool(good)), func=fn, meta={"regions": regs})
